@@ -954,7 +954,7 @@ fn check_codec(c: &CodecCase) -> Verdict {
     let range: Vec<usize> = match c.only {
         Some(k) if (k as usize) < muts.len() => vec![k as usize],
         Some(_) => vec![],
-        None if muts.len() <= CODEC_MUTANTS_PER_CASE => (0..muts.len()).collect(),
+        None if muts.len() <= CODEC_MUTANTS_PER_CASE || std::env::var_os("NV_CODEC_ALL").is_some() => (0..muts.len()).collect(),
         None => {
             let stride = muts.len().div_ceil(CODEC_MUTANTS_PER_CASE);
             ((c.seed as usize % stride)..muts.len()).step_by(stride).collect()
@@ -976,6 +976,9 @@ fn check_codec(c: &CodecCase) -> Verdict {
             _ => raw_len,
         };
         n += 1;
+        if std::env::var_os("NV_TRACE_MUTANT").is_some() {
+            eprintln!("codec mutant #{i} {:?}", muts[i]);
+        }
         match panics::catch(|| c08::decode_arbitrary(id, &m, hint)) {
             Ok(Ok(_)) => decoded_ok += 1,
             Ok(Err(_)) => {}
